@@ -1278,14 +1278,19 @@ class PhasedVcfWriter(VcfAugmenter):
         return genotype_changes
 
     def _remove_existing_phasing(self, record: VariantRecord, samples: Iterable[str]):
-        if self.tag == "PS":
-            for sample in samples:
-                call = record.samples[sample]
-                if "GT" not in call:
-                    continue
-                call.phased = False
-                if call["GT"] is not None and all(allele is not None for allele in call["GT"]):
-                    call["GT"] = sorted(call["GT"])
+        # Phase information of the target samples is replaced completely, whichever
+        # encoding (phased GT with PS, or HP) the input used and whichever tag is written
+        for sample in samples:
+            call = record.samples[sample]
+            if "GT" not in call:
+                continue
+            call.phased = False
+            if call["GT"] is not None and all(allele is not None for allele in call["GT"]):
+                call["GT"] = sorted(call["GT"])
+            if "PS" in record.format and call["PS"] is not None:
+                call["PS"] = None
+            if "HP" in record.format and any(x is not None and x != "." for x in call["HP"]):
+                call["HP"] = "."
 
 
 def genotype_code(gt: Optional[Tuple[Optional[int], ...]]) -> Genotype:
